@@ -150,8 +150,14 @@ class BlockSeries:
                     dimension_names=self.dimension_names,
                 )
 
+            view_shape = np.empty(self.shape)[item].shape
+            # The orders are requested as slices of length one: an integer next to
+            # the lists of `item` would count as an advanced index too and could
+            # move the dimension of the lists to the front.
             packed = BlockSeries(
-                eval=lambda *index: self[item + index].filled(zero),
+                eval=lambda *index: self[item + tuple(slice(i, i + 1) for i in index)]
+                .filled(zero)
+                .reshape(view_shape),
                 shape=(),
                 n_infinite=self.n_infinite,
             )
@@ -159,7 +165,7 @@ class BlockSeries:
                 eval=lambda *index: packed[index[-self.n_infinite :]][
                     index[: -self.n_infinite]
                 ],
-                shape=np.empty(self.shape)[item].shape,
+                shape=view_shape,
                 n_infinite=self.n_infinite,
                 dimension_names=self.dimension_names,
             )
@@ -172,7 +178,9 @@ class BlockSeries:
         # Create trial array to use for indexing
         trial_shape = self.shape + tuple(
             [
-                order.stop if isinstance(order, slice) else np.max(order, initial=0) + 1
+                order.stop
+                if isinstance(order, slice)
+                else int(np.max(order, initial=0)) + 1
                 for order in item[n_finite:]
             ]
         )
